@@ -256,17 +256,29 @@ NeedsSave == pers /\ disk # SavedNow(nodes)
 (***************************************************************************)
 EJobs(seq) == [i \in 1..Len(seq) |-> [k |-> "E", m |-> seq[i]]]
 
-RecvAsync(l, ch) ==
+\* The application's event callback may call back into the gateway.  Modelled reaction: update_fw(node, f) for the node whose
+\* PRESENTATION is being announced (type and version alone, no image) - the event is raised after the handler's own state
+\* changes and nothing of the handler follows it, so the reaction applies to the handler's result.
+NoReact == [on |-> FALSE, n |-> 0, f |-> <<0, 0>>]
+React(r, l, rx) ==
+  IF rx.on /\ r.cbs # <<>> /\ l.wf /\ l.h.cmd = PRES /\ rx.f \in r.ota.fw /\ rx.n \in DOMAIN r.nd
+  THEN [nd |-> [r.nd EXCEPT ![rx.n].reboot = TRUE],
+        ota |-> [r.ota EXCEPT !.sess = [n \in DOMAIN r.ota.sess \cup {rx.n} |->
+                                          IF n = rx.n THEN [st |-> "requested", fw |-> rx.f] ELSE r.ota.sess[n]]]]
+  ELSE [nd |-> r.nd, ota |-> r.ota]
+
+RecvAsyncR(l, ch, rx) ==
   /\ Flavour = "async"
   /\ ChoiceOk(nodes, issued, l, ch)
   /\ LET r == Logic(nodes, ota, l, ch, metric) IN
-       /\ nodes' = r.nd /\ ota' = r.ota
+       /\ nodes' = React(r, l, rx).nd /\ ota' = React(r, l, rx).ota
        /\ out' = r.jb \o r.em          \* add_job sends at once; the reply of logic() is sent last
        /\ cb' = r.cbs
   /\ issued' = issued \cup NewIssued(l, ch)
   /\ exc' = "none"
   /\ dirty' = (dirty \/ (pers /\ cb' # <<>>))       \* alert() marks the state unsaved
   /\ UNCHANGED <<jobs, metric, pers, disk>>
+RecvAsync(l, ch) == RecvAsyncR(l, ch, NoReact)
 
 RecvSync(l) ==
   /\ Flavour = "sync"
@@ -274,7 +286,7 @@ RecvSync(l) ==
   /\ out' = <<>> /\ cb' = <<>> /\ exc' = "none"
   /\ UNCHANGED <<nodes, ota, metric, pers, dirty, disk, issued>>
 
-Pump(ch) ==
+PumpR(ch, rx) ==
   /\ Flavour = "sync" /\ jobs # <<>>
   /\ LET j == Head(jobs) IN
      IF j.k = "E"
@@ -282,7 +294,7 @@ Pump(ch) ==
           /\ UNCHANGED <<nodes, ota, issued>>
      ELSE /\ ChoiceOk(nodes, issued, j.l, ch)
           /\ LET r == Logic(nodes, ota, j.l, ch, metric) IN
-               /\ nodes' = r.nd /\ ota' = r.ota
+               /\ nodes' = React(r, j.l, rx).nd /\ ota' = React(r, j.l, rx).ota
                /\ jobs' = Tail(jobs) \o EJobs(r.jb)
                /\ out' = r.em
                /\ cb' = r.cbs
@@ -290,6 +302,7 @@ Pump(ch) ==
   /\ exc' = "none"
   /\ dirty' = (dirty \/ (pers /\ cb' # <<>>))
   /\ UNCHANGED <<metric, pers, disk>>
+Pump(ch) == PumpR(ch, NoReact)
 
 \* set_child_value(n, c, t, v, ack=a); v is a payload descriptor, t an integer
 \* (given as int or as numeric string - both mean the same value type)
